@@ -50,7 +50,11 @@ type GoBackNConn struct {
 	log btclog.Logger
 
 	// receivedACKSignal channel is used to signal that the queue size has
-	// been decreased.
+	// been decreased. It holds one signal: the receive loop signals without
+	// blocking, and a signal that is sent between the send loop's check of
+	// the queue size and its wait for this channel must not get lost, or
+	// the send loop waits on a window that has room. A signal that is left
+	// over merely makes the send loop check the queue size once more.
 	receivedACKSignal chan struct{}
 
 	// resendSignal is used to signal that normal operation sending should
@@ -95,7 +99,7 @@ func newGoBackNConn(ctx context.Context, cfg *config,
 		cfg:               cfg,
 		recvDataChan:      make(chan *PacketData, cfg.n),
 		sendDataChan:      make(chan *PacketData),
-		receivedACKSignal: make(chan struct{}),
+		receivedACKSignal: make(chan struct{}, 1),
 		resendSignal:      make(chan struct{}, 1),
 		remoteClosed:      make(chan struct{}),
 		ctx:               ctxc,
